@@ -199,6 +199,31 @@ def oracle_conditional(rng):
     n = rng.randint(1, 2)
     kind = rng.choice(['box', 'eq_box', 'eq_box', 'eq_box', 'mixed', 'ball', 'negbox', 'negbox', 'expcone', 'expcone'])
     X, _ = sagecorr.make_domain(rng, n, kind)
+    if kind == 'box' and n == 2 and rng.random() < 0.5:
+        # a polyhedral domain stated through coniclifts constraints that leave the last coordinate FREE: {0 <= x0 <= 1}; shrinking it
+        # to the box [0,1] x [-1,2] must not lower the bound, and both bounds are lower bounds on their sets
+        from sageopt.symbolic.signomials import SigDomain
+        xs_ = cl.Variable(shape=(2,), name='slab_x')
+        Xslab = SigDomain(2, coniclifts_cons=[xs_[0] >= 0, xs_[0] <= 1])
+        Xbox2 = SigDomain(2, coniclifts_cons=[xs_[0] >= 0, xs_[0] <= 1, xs_[1] >= -1, xs_[1] <= 2])
+        fs_ = sig([([Fraction(-1), Fraction(-1)], Fraction(1)), ([Fraction(1), Fraction(1)], Fraction(1, 50) * rng.choice([1, 2]))], 2)
+        with warnings.catch_warnings():
+            warnings.simplefilter('ignore')
+            vs_ = {}
+            for nm0, Xd in (('slab', Xslab), ('box', Xbox2)):
+                for fm in ('primal', 'dual'):
+                    vs_[nm0 + '/' + fm] = ss.sig_relaxation(fs_, Xd, form=fm).solve(verbose=False)
+        ub_slab = min(float(fs_(np.array([a_, b_]))) for a_ in np.linspace(0, 1, 21) for b_ in np.linspace(-6, 6, 241))
+        ub_box = min(float(fs_(np.array([a_, b_]))) for a_ in np.linspace(0, 1, 21) for b_ in np.linspace(-1, 2, 61))
+        for nm, (st_, val_) in vs_.items():
+            ub_ = ub_slab if nm.startswith('slab') else ub_box
+            if st_ == 'solved' and isinstance(val_, float) and math.isfinite(val_) and val_ > ub_ + 1e-4 * (1 + abs(ub_)):
+                return 'bound %r (%s) of exp(-x0-x1) + c exp(x0+x1) over the domain {0 <= x0 <= 1%s} exceeds f at a point of it (%r)' % (
+                    val_, nm, '' if nm.startswith('slab') else ', -1 <= x1 <= 2', ub_)
+        for fm in ('primal', 'dual'):
+            a_, b_ = vs_['slab/' + fm], vs_['box/' + fm]
+            if a_[0] == b_[0] == 'solved' and math.isfinite(a_[1]) and math.isfinite(b_[1]) and b_[1] < a_[1] - 1e-4 * (1 + abs(a_[1])):
+                return 'the %s bound decreases from %r on {0 <= x0 <= 1} to %r on the smaller set {0 <= x0 <= 1, -1 <= x1 <= 2}' % (fm, a_[1], b_[1])
     rows = []
     while len(rows) < rng.randint(1, 4):
         a = [Fraction(rng.choice([0, 1, -1, 2, 1]), rng.choice([1, 2])) for _ in range(n)]
